@@ -595,7 +595,34 @@ func (s *server) processPart(session *syncSession, req *clusterv1.SyncPartReques
 	return nil
 }
 
+// verifyCompletion checks the sender's completion summary against what was actually applied.
+// A chunk that never arrived (or is still parked in the reordering buffer) leaves the current part truncated,
+// so the part must not be finished; returning an error makes SyncPart close (discard) the part context.
+func verifyCompletion(session *syncSession, completion *clusterv1.SyncCompletion) error {
+	if session.chunkBuffer != nil && len(session.chunkBuffer.chunks) > 0 {
+		return fmt.Errorf("incomplete sync session %s: %d chunk(s) still buffered, waiting for chunk %d",
+			session.sessionID, len(session.chunkBuffer.chunks), session.chunkBuffer.expectedIndex)
+	}
+	if completion.GetTotalChunks() > 0 && completion.GetTotalChunks() != session.chunksReceived {
+		return fmt.Errorf("incomplete sync session %s: sender sent %d chunks, %d were applied",
+			session.sessionID, completion.GetTotalChunks(), session.chunksReceived)
+	}
+	if completion.GetTotalBytesSent() > 0 && completion.GetTotalBytesSent() != session.totalReceived {
+		return fmt.Errorf("incomplete sync session %s: sender sent %d bytes, %d were applied",
+			session.sessionID, completion.GetTotalBytesSent(), session.totalReceived)
+	}
+	return nil
+}
+
 func (s *server) handleCompletion(stream clusterv1.ChunkedSyncService_SyncPartServer, session *syncSession, req *clusterv1.SyncPartRequest) error {
+	if verifyErr := verifyCompletion(session, req.GetCompletion()); verifyErr != nil {
+		if s.metrics != nil {
+			op, grp, sn, sr, st := s.resolveSessionLabels(session)
+			s.metrics.totalErr.Inc(1, op, grp, sn, sr, st, "incomplete")
+		}
+		s.log.Error().Err(verifyErr).Str("session_id", session.sessionID).Msg("rejecting completion of an incomplete sync session")
+		return verifyErr
+	}
 	if session.partCtx != nil && session.partCtx.Handler != nil {
 		if finishErr := session.partCtx.Handler.FinishSync(); finishErr != nil {
 			if s.metrics != nil {
